@@ -20,7 +20,8 @@ DEFAULT_FAULTS = dict(
     p_fail=None,            # None: drawn per run
     pause=0.0, resume_early=0.0, cancel=0.0, bad_request=0.0, restart=0.0, dup=0.0, poll_skip=0.0,
     poll_twice=0.0, rerun=0.0, eval_fault=0.0, act_canceled=0.5, act_canceling=0.4, act_timeout=0.2, act_abandoned=0.1,
-    slow_branch=0.3, suffix_requests=0.0, pending=0.0, mark_running=0.3,
+    slow_branch=0.3, suffix_requests=0.0, pending=0.0, mark_running=0.3, act_cancel_solo=0.0, early_pause=0.0,
+    early_cancel=0.0, cancel_while_pausing=0.0,
 )
 
 
@@ -339,8 +340,18 @@ class Scheduler(object):
         opts = dict(profile.get("world") or {})
         if self.K.u("knob", "first_event") < 0.3:
             opts.setdefault("first_event", self.K.choice(["requested", "scheduled"], "knob", "fe"))
-        if self.K.u("knob", "start_path") < 0.2:
-            opts.setdefault("start_path", ["requested", "scheduled", "running"])
+        if self.K.u("knob", "start_path") < 0.25:
+            path = list(self.K.choice([["requested", "scheduled", "running"], ["requested", "running"], ["scheduled", "running"],
+                                       ["delayed", "running"], ["requested", "delayed", "scheduled", "running"],
+                                       ["requested", "scheduled", "running"]], "knob", "start_menu"))
+            if ((self.f.get("early_pause") or 0) > 0 or (self.f.get("early_cancel") or 0) > 0) \
+                    and self.K.u("knob", "start_partial") < 0.5:
+                path = path[:-1]        # the operator acts before the workflow was set running
+            opts.setdefault("start_path", path)
+        if (self.f.get("act_cancel_solo") or 0) > 0:
+            opts.setdefault("solo_cancel", True)
+        if self.K.u("knob", "abend_before_running") < 0.3:
+            opts.setdefault("abend_before_running", 1 + self.K.below(1000000, "knob", "abr_seed"))
         self.opts = opts
         self.world = w = World(prog, set(profile.get("enabled") or ()), self.stats, opts)
         try:
@@ -352,6 +363,22 @@ class Scheduler(object):
     def _run(self):
         w = self.world
         self.do(["start"])
+        if w.status in ("requested", "scheduled", "delayed"):
+            # the start path stopped short of running: a pause (and resume) or a cancel request
+            # reaches a workflow that has not started anything yet
+            if self.coin("early_pause"):
+                self.stats["fault_early_pause"] = 1
+                self.do(["request", self.K.choice(["pausing", "paused"], "fault", "epkind")])
+                if self.coin("early_cancel"):
+                    self.stats["fault_early_cancel"] = 1
+                    self.do(["request", self.K.choice(["canceling", "canceled"], "fault", "eckind")])
+                elif w.status == "paused":
+                    self.do(["request", self.K.choice(["resuming", "running"], "fault", "erkind")])
+            elif self.coin("early_cancel"):
+                self.stats["fault_early_cancel"] = 1
+                self.do(["request", self.K.choice(["canceling", "canceled"], "fault", "eckind")])
+            if w.status in ("requested", "scheduled", "delayed"):
+                self.do(["request", "running"])
         if w.status not in TERMINAL_WF:
             n = self.do(["dispatch"])
             g = 0
@@ -414,6 +441,10 @@ class Scheduler(object):
                                  or self.K.u("cancel_outcome", aid) < self.f["act_canceled"]):
                 status = "canceled"    # keeps the payload shape of the task
                 self.stats["fault_act_canceled"] = self.stats.get("fault_act_canceled", 0) + 1
+            elif not w.cancel_req and w.status in ("running", "resuming", "pausing") and self.coin("act_cancel_solo", aid):
+                # somebody cancels this one action execution; no cancel request reached the workflow
+                status = "canceled"
+                self.stats["fault_act_canceled_solo"] = self.stats.get("fault_act_canceled_solo", 0) + 1
             if status != "succeeded" and status != "canceled":
                 self.stats["fault_act_" + status] = self.stats.get("fault_act_" + status, 0) + 1
             if self.order_started and aid != self.first_outstanding():
